@@ -122,6 +122,15 @@ fn cases() -> Vec<Case> {
         case("iterator defaults are private", NONE, "", &[one!("{ it := [mut 1][1:]~; (m, c) := it(); c += 5; *c }"), one!("{ it := [mut 1][1:]~; (m, c) := it(); c += 5; *c }")], None, false),
         case("printing private nested cells", NONE, "", &[one!("std.convert.to_string(mut mut mut 1)"), one!("std.convert.to_string(mut mut mut 2)")], None, false),
         case("printing private nested cells x3", NONE, "", &[one!("std.convert.to_string([mut mut 1, mut mut 2])"), one!("std.convert.to_string(mut mut 3)"), one!("std.convert.to_string(mut mut mut 4)")], Some(3), false),
+        // 8. type tests in shared code meeting different run-time types in different threads (a
+        //    memo of the last answer inside the instruction would couple the runs); the sources
+        //    are compiled with every std::sync object redirected to loom (instrument.py)
+        case("if-set in a shared function, int vs string", NONE, "shared := (v: int|string) -> int { if q: int = v { return q + 1 }; return 0 }", &[one!("(shared(1), shared(2))"), one!("(shared(\"a\"), shared(\"b\"))")], Some(3), false),
+        case("match type arm in a shared function, int vs string", NONE, "shared := (v: int|string) -> int { return match v { q: int => q + 1, q: string => 0, } }", &[one!("(shared(1), shared(2))"), one!("(shared(\"a\"), shared(\"b\"))")], Some(3), false),
+        case("while-set in a shared function, int vs string", NONE, "shared := (v: int|string) -> int { n := mut 0; while q: int = v { n += q; break }; return *n }", &[one!("(shared(1), shared(2))"), one!("(shared(\"a\"), shared(\"b\"))")], Some(3), false),
+        case("type filter in a shared function, mixed arrays", NONE, "shared := (a: [int|string]) -> [int] { return a~ ? int $] }", &[one!("(shared([1, \"a\"]), shared([2]))"), one!("(shared([\"b\", 3]), shared([\"c\"]))")], Some(2), false),
+        case("if-set in shared code over a mixed array", NONE, "", &[one!("{ s := mut 0; for e in [1, \"a\", 2]~ { if q: int = e { s += q } }; *s }"), one!("{ s := mut 0; for e in [1, \"a\", 2]~ { if q: int = e { s += q } }; *s }")], Some(2), false),
+        case("if-set in a shared function x3 (bound 2)", NONE, "shared := (v: int|string|float) -> int { if q: int = v { return q + 1 }; return 0 }", &[one!("(shared(1), shared(2))"), one!("(shared(\"a\"), shared(\"b\"))"), one!("(shared(1.5), shared(3))")], Some(2), true),
         // deeper thorough-only explorations
         case("three threads, two ops each (bound 2)", C0, "", &[("{ c += 1; c *= 2 }", &["c += 1", "c *= 2"]), ("{ c += 3; c -= 1 }", &["c += 3", "c -= 1"]), ("{ c *= 3; c += 5 }", &["c *= 3", "c += 5"])], Some(2), true),
         case("two threads, four ops each (bound 3)", C0, "", &[("{ c += 1; c *= 2; c -= 3; c += 7 }", &["c += 1", "c *= 2", "c -= 3", "c += 7"]), ("{ c *= 5; c += 2; c /= 2; c -= 1 }", &["c *= 5", "c += 2", "c /= 2", "c -= 1"])], Some(3), true),
@@ -401,6 +410,14 @@ fn main() {
         println!("  {}: {e}", all[*idx].name);
     }
     let sample = results.iter().find_map(|(_, r)| r.as_ref().ok().filter(|v| v["distinct_outcomes"].as_u64().unwrap_or(0) > 1)).cloned();
+    // how the sources were compiled (written by ./check)
+    let plain_copy = std::path::Path::new(&format!("{root}/loomcheck/target/PLAIN_COPY")).exists();
+    let instrument_log = std::fs::read_to_string(format!("{root}/loomcheck/instrument.log")).unwrap_or_default();
+    let sync_note = if plain_copy {
+        "the sources with std::sync redirected to loom did NOT compile: built against the plain copy, only cell locks are scheduling points".to_string()
+    } else {
+        format!("sources compiled with every std::sync path redirected to loom's types ({})", instrument_log.lines().last().unwrap_or("no instrument.log").trim())
+    };
     let evidence = json!({
         "property_id": "C16",
         "tier": if tier == "thorough" { "thorough" } else { "quick" },
@@ -415,11 +432,12 @@ fn main() {
             "max_distinct_outcomes_in_one_harness": max_outcomes,
             "per_harness": per_case,
             "samples": [sample.unwrap_or(json!({"note": "no harness with more than one outcome"}))],
+            "synchronisation_objects_modelled": sync_note,
             "exhaustive": true,
             "rule": "each harness is a loom model over the real interpreter: worker threads execute shared Code / Function values; every interleaving of their lock operations (DPOR; preemption bound where stated) is executed; the per-thread results and final cell contents must equal those of some sequential order of the same programs (computed by running the real interpreter sequentially in every order); loom reports deadlocks; a poisoned lock or a panic fails the execution",
         },
         "assumptions": [
-            "scheduling points are the lock operations of cells (the crates contain no unsafe code); for harnesses whose runs share no cell every order of these operations across threads is explored (a world variable makes them conflict), so state shared outside cells shows as a difference from the result each run gives alone; code between two consecutive cell accesses of one thread is not interleaved",
+            "scheduling points are the operations on cell locks and on every other std::sync lock / atomic in the sources (redirected to loom by loomcheck/instrument.py; thread_local!, static mut and objects of other crates are not); the crates contain no unsafe code; for harnesses whose runs share no cell every order of these operations across threads is explored (a world variable makes them conflict), so state shared outside cells shows as a difference from the result each run gives alone; code between two consecutive synchronisation operations of one thread is not interleaved",
             "loom does not model the writer preference of std's RwLock; the facade therefore keeps a book of lock acquisitions per execution and a thread that re-takes a cell lock it holds, in an execution where another thread writes that cell, is reported (such a pair deadlocks when the writer queues between the two acquisitions)",
             "lazy_static first-use races are std::sync::Once's responsibility"
         ],
